@@ -238,6 +238,38 @@ func (h H) entrySkipAndKeep(rule string) {
 		h.C.Check(rule+" keep-same-term", site, r.OK, h.pos(c), "an entry already present with the same term can be re-appended/overwritten: "+r.Witness)
 	}
 	h.C.Floor(rule+" (appendEntry calls)", len(h.P.CallsTo(fn, ae)), 1)
+	// an entry of the request may be passed over without being appended only if it is covered by the
+	// snapshot or the local entry at that index has exactly the same term
+	fi := h.P.Info(fn)
+	var hd *ssa.BasicBlock
+	for _, x := range core.LoopHeaders(fn) {
+		for _, c := range h.P.CallsTo(fn, ae) {
+			if core.InLoop(x, c.Block()) {
+				hd = x
+			}
+		}
+	}
+	if !h.C.Check(rule+" entry-loop", "(*Raft).onAppendEntriesRequest entry-loop", hd != nil, h.fpos(fn), "loop over the request's entries not found") {
+		return
+	}
+	var e, m string
+	for _, c := range h.P.CallsTo(fn, ae) {
+		e = h.argStr(c, 1)
+	}
+	for _, g := range h.P.CallsTo(fn, mge) {
+		if h.argStr(g, 1) == e+".index" {
+			m = h.argStr(g, 2)
+		}
+	}
+	r := fi.LoopBodyMustCrossOrPass(hd, func(a core.Atom) bool {
+		for _, f := range snapIndexForms("Raft.storage") {
+			if a.Implies(core.MkAtom(e+".index", "<=", f)) {
+				return true
+			}
+		}
+		return m != "" && a.Implies(core.MkAtom(e+".term", "==", m+".term"))
+	}, func(in ssa.Instruction) bool { return h.P.IsCallTo(in, ae) })
+	h.C.Check(rule+" skip-only-if-same", "(*Raft).onAppendEntriesRequest entry-loop", r.OK, h.pos(hd.Instrs[len(hd.Instrs)-1]), "a received entry can be passed over (neither appended nor replacing the local one) although the local entry at its index has a different term: "+r.Witness)
 }
 
 // storageCacheCoherence (E4 row 1; C04.2): lastLogIndex/lastLogTerm follow
